@@ -5,9 +5,19 @@
   the stock configurations.  The documented mapping (api.go doc comments) is written below by
   hand BY NAME, so retuning a bit number leaves the theorems true while a crossed, missing or
   doubled wire makes them fail.  All quantifiers range over finite tables: `decide` is a proof.
+
+  Second half (work package `opts`): `Config.Froze` as a FUNCTION of the regenerated table
+  (`Opts.froze`), with `froze_pointwise` for all Configs; and the effect of every switch as a
+  relation between "the result without it" and "the result with it", for ALL inputs, on the models of
+  Model/Opts.lean (linear template of the encoder output, JSON trees, interface{} values, field
+  matching).  These relations are what the metamorphic correspondence (`optpair`, Driver/Opts.lean)
+  checks on the real code.
 -/
 import SonicSpec.Generated.Opts
 import SonicSpec.Generated.Consts
+import SonicSpec.Proofs.Opts
+import SonicSpec.Proofs.OptsSort
+import SonicSpec.Proofs.OptsSkip
 namespace SonicSpec.Props.C18
 open SonicSpec.Gen
 
@@ -124,5 +134,294 @@ theorem wires_injective : (frozeWires.map fun w => (w.2.1, w.2.2.1)).Nodup := by
 
 -- non-vacuity: the tables are not empty and contain the expected kind of entries
 example : frozeWires.length = 17 ∧ configFields.length = 16 ∧ setters.length = 13 := by decide
+
+open SonicSpec SonicSpec.Json SonicSpec.Opts
+
+/-! ## Config.Froze as a function: a switch moves exactly its own bits -/
+
+/-- For EVERY Config `c` (not a sample), every switch `s` and every bit `b`: flipping `s` changes bit `b`
+    of the encoder (decoder) options word exactly when `s` is the switch whose wire owns that bit. -/
+theorem froze_pointwise (c s b : Nat) :
+    ((froze (flipSwitch c s)).1.testBit b = ((froze c).1.testBit b ^^ (ownerIdx "encoderOpts" b == some s))) ∧
+    ((froze (flipSwitch c s)).2.testBit b = ((froze c).2.testBit b ^^ (ownerIdx "decoderOpts" b == some s))) :=
+  ⟨froze_pointwise_word "encoderOpts" (Or.inl rfl) c s b, froze_pointwise_word "decoderOpts" (Or.inr rfl) c s b⟩
+
+/-- ... and the owner of every bit of a wire's mask is that wire's own Config field (so, with `froze_exact`
+    and `froze_masks`, the bits a switch moves are the documented ones) -/
+theorem owner_is_wire : Gen.frozeWires.all (fun w => (List.range 64).all fun b =>
+    !(wMask w).testBit b || ownerIdx (wWord w) b == fieldIdx (wField w)) = true := by decide +kernel
+
+/-- every field named by a wire is a field of Config (so `fieldIdx` never misses) -/
+theorem wires_name_fields : Gen.frozeWires.all (fun w => (fieldIdx (wField w)).isSome) = true := by decide +kernel
+
+/-! ## Encoder switches on the template model (`Opts.encode`) -/
+
+/-- EscapeHTML (without the UTF-8 post-pass): the output is `HTMLEscape` of the output without the switch,
+    an error stays the same error -/
+theorem escapeHTML_eq_htmlEscape_of_plain (o : EncOpts) (segs : List Seg) (hv : o.validate = false) :
+    encode { o with html := true } segs =
+      (match encode { o with html := false } segs with
+       | .ok b => .ok (htmlEscape b)
+       | .error e => .error e) := by
+  have h : encPlain { o with html := true } segs = encPlain { o with html := false } segs :=
+    encPlain_congr ⟨by rfl, by rfl, by rfl, by rfl, by rfl⟩ segs
+  unfold encode
+  rw [h]
+  generalize encPlain { o with html := false } segs = r
+  cases r with
+  | error e => rfl
+  | ok b => simp [finish, hv]
+
+/-- EscapeHTML in general: `HTMLEscape` is applied to the plain output, before the UTF-8 post-pass -/
+theorem escapeHTML_is_postpass (o : EncOpts) (segs : List Seg) :
+    encode { o with html := true } segs =
+      (match encPlain o segs with
+       | .ok b => .ok (finish false o.validate (htmlEscape b))
+       | .error e => .error e) := by
+  have h : encPlain { o with html := true } segs = encPlain o segs :=
+    encPlain_congr ⟨by rfl, by rfl, by rfl, by rfl, by rfl⟩ segs
+  unfold encode
+  rw [h]
+  generalize encPlain o segs = r
+  cases r with
+  | error e => rfl
+  | ok b => simp [finish]
+
+def fillNil : Seg → Seg
+  | .nilSlice => .raw [91, 93]
+  | .nilMap => .raw [123, 125]
+  | s => s
+
+/-- NoNullSliceOrMap: same as encoding, without the switch, the value whose nil slices / nil maps are `[]` / `{}` -/
+theorem noNullSliceOrMap_only_nil (o : EncOpts) (segs : List Seg) :
+    encode { o with noNull := true } segs = encode { o with noNull := false } (segs.map fillNil) := by
+  refine encode_map fillNil ?_ (by rfl) (by rfl) segs
+  intro s
+  cases s <;> simp [encSeg, fillNil]
+
+/-- ... and nothing at all changes when there is no nil slice or map -/
+theorem noNullSliceOrMap_id (o : EncOpts) (segs : List Seg) (h : ∀ s ∈ segs, s ≠ .nilSlice ∧ s ≠ .nilMap) :
+    encode { o with noNull := true } segs = encode { o with noNull := false } segs := by
+  have : encPlain { o with noNull := true } segs = encPlain { o with noNull := false } segs := by
+    apply encPlain_id_of
+    intro s hs
+    have := h s hs
+    cases s <;> simp_all [encSeg]
+  simp only [encode, this]
+
+def nanToNull : Seg → Seg
+  | .nonFinite => .raw nullText
+  | s => s
+
+/-- EncodeNullForInfOrNan: same as encoding, without the switch, the value with `null` in place of NaN/Inf -/
+theorem encodeNullForInfOrNan_only_errors (o : EncOpts) (segs : List Seg) :
+    encode { o with nullNaN := true } segs = encode { o with nullNaN := false } (segs.map nanToNull) := by
+  refine encode_map nanToNull ?_ (by rfl) (by rfl) segs
+  intro s
+  cases s <;> simp [encSeg, nanToNull]
+
+/-- ... nothing changes when no float is NaN/Inf; and when one is, the call without the switch is an error -/
+theorem encodeNullForInfOrNan_id (o : EncOpts) (segs : List Seg) (h : Seg.nonFinite ∉ segs) :
+    encode { o with nullNaN := true } segs = encode { o with nullNaN := false } segs := by
+  have : encPlain { o with nullNaN := true } segs = encPlain { o with nullNaN := false } segs := by
+    apply encPlain_id_of
+    intro s hs
+    have : s ≠ .nonFinite := fun e => h (e ▸ hs)
+    cases s <;> simp_all [encSeg]
+  simp only [encode, this]
+
+theorem nonFinite_is_error (o : EncOpts) (segs : List Seg) (h : Seg.nonFinite ∈ segs) (ho : o.nullNaN = false) :
+    ∃ e, encode o segs = .error e := by
+  have : ∃ e, encPlain o segs = .error e := by
+    induction segs with
+    | nil => cases h
+    | cons s r ih =>
+      simp only [encPlain]
+      cases hs : encSeg o s with
+      | error e => exact ⟨e, rfl⟩
+      | ok b =>
+        have hr : Seg.nonFinite ∈ r := by
+          rcases List.mem_cons.mp h with h1 | h1
+          · subst h1; simp [encSeg, ho] at hs
+          · exact h1
+        obtain ⟨e, he⟩ := ih hr
+        exact ⟨e, by simp [he]⟩
+  obtain ⟨e, he⟩ := this
+  exact ⟨e, by simp [encode, he]⟩
+
+def unquoteText : Seg → Seg
+  | .text t => .raw t
+  | s => s
+
+/-- NoQuoteTextMarshaler: TextMarshaler texts are emitted as they are instead of quoted; nothing else -/
+theorem noQuoteTextMarshaler_only_texts (o : EncOpts) (segs : List Seg) :
+    encode { o with noQuote := true } segs = encode { o with noQuote := false } (segs.map unquoteText) := by
+  refine encode_map unquoteText ?_ (by rfl) (by rfl) segs
+  intro s
+  cases s <;> simp [encSeg, unquoteText]
+
+def compactJM : Seg → Seg
+  | .jm r => match compactDoc r with
+    | some c => .raw c
+    | none => .jm r
+  | s => s
+
+/-- CompactMarshaler: well-formed json.Marshaler output is replaced by its compact form; ill-formed output is
+    an error (also under NoValidateJSONMarshaler: compaction validates) -/
+theorem compactMarshaler_only_marshalers (o : EncOpts) (segs : List Seg) :
+    encode { o with compact := true } segs =
+      encode { o with compact := false, noValidateJM := false } (segs.map compactJM) := by
+  refine encode_map compactJM ?_ (by rfl) (by rfl) segs
+  intro s
+  cases s with
+  | jm r =>
+    simp only [encSeg, compactJM, compactDoc]
+    cases h : parseDoc r <;> simp [h]
+  | _ => simp [encSeg, compactJM]
+
+def trustJM : Seg → Seg
+  | .jm r => .raw r
+  | s => s
+
+/-- NoValidateJSONMarshaler (without CompactMarshaler): json.Marshaler output is copied unchecked; nothing else -/
+theorem noValidateJSONMarshaler_only_validation (o : EncOpts) (segs : List Seg) (hc : o.compact = false) :
+    encode { o with noValidateJM := true } segs = encode { o with noValidateJM := false } (segs.map trustJM) := by
+  refine encode_map trustJM ?_ (by rfl) (by rfl) segs
+  intro s
+  cases s <;> simp [encSeg, trustJM, hc]
+
+/-- ... and it changes nothing when every json.Marshaler returned well-formed JSON -/
+theorem noValidateJSONMarshaler_id_of_valid (o : EncOpts) (segs : List Seg)
+    (h : ∀ r, Seg.jm r ∈ segs → (parseDoc r).isSome) :
+    encode { o with noValidateJM := true } segs = encode { o with noValidateJM := false } segs := by
+  have : encPlain { o with noValidateJM := true } segs = encPlain { o with noValidateJM := false } segs := by
+    apply encPlain_id_of
+    intro s hs
+    cases s with
+    | jm r => have := h r hs; simp [encSeg, this]
+    | _ => simp [encSeg]
+  simp only [encode, this]
+
+/-- NoEncoderNewline: Marshal is not affected at all; a stream encoder writes the same document without the
+    final newline -/
+theorem noEncoderNewline (o : EncOpts) (segs : List Seg) :
+    encode { o with noNewline := true } segs = encode { o with noNewline := false } segs ∧
+    (∀ b, encodeStream { o with noNewline := false } segs = .ok b →
+        ∃ d, b = d ++ [10] ∧ encodeStream { o with noNewline := true } segs = .ok d ∧
+             encode { o with noNewline := true } segs = .ok d) := by
+  have hp : encPlain { o with noNewline := true } segs = encPlain { o with noNewline := false } segs :=
+    encPlain_congr ⟨by rfl, by rfl, by rfl, by rfl, by rfl⟩ segs
+  refine ⟨by simp only [encode, hp], ?_⟩
+  intro b hb
+  simp only [encodeStream, encode, hp] at hb ⊢
+  cases h : encPlain { o with noNewline := false } segs with
+  | error e => simp [h] at hb
+  | ok p =>
+    simp only [h, streamOut] at hb ⊢
+    injection hb with hb
+    exact ⟨_, by simpa using hb.symm, by simp, rfl⟩
+
+
+/-! ## SortMapKeys on trees (`Opts.sortKeysP`; `sortKeys` = every object is a map) -/
+
+/-- SortMapKeys only reorders: an object becomes an object whose members are a permutation of the
+    (recursively treated) members, keys kept; arrays keep length and order; scalars are untouched -/
+theorem sortMapKeys_perm_only (kp : Bytes → Bool) :
+    (∀ kvs, ∃ out, sortKeysP kp (.obj kvs) = .obj out ∧
+        out.Perm (kvs.map fun kv => (kv.1, sortKeysP kp kv.2))) ∧
+    (∀ xs, sortKeysP kp (.arr xs) = .arr (xs.map (sortKeysP kp))) ∧
+    (∀ t, (∀ xs, t ≠ .arr xs) → (∀ kvs, t ≠ .obj kvs) → sortKeysP kp t = t) := by
+  refine ⟨?_, ?_, ?_⟩
+  · intro kvs
+    simp only [sortKeysP]
+    split
+    · exact ⟨_, rfl, by rw [sortMembers_eq_map]⟩
+    · exact ⟨_, rfl, by rw [← sortMembers_eq_map]; exact isort_perm _⟩
+  · intro xs; simp only [sortKeysP, sortElems_eq_map]
+  · intro t h1 h2
+    cases t with
+    | arr xs => exact absurd rfl (h1 xs)
+    | obj kvs => exact absurd rfl (h2 kvs)
+    | _ => rfl
+
+/-- ... into byte order: in the result every map object (every object, for `sortKeys`) has its members in
+    bytewise order of the decoded keys, at every depth -/
+theorem sortMapKeys_sorted (kp : Bytes → Bool) (t : JVal) : allSorted kp (sortKeysP kp t) := sortKeysP_sorted kp t
+
+/-- the order is the bytewise order of Go strings: total and transitive (so "sorted" determines the key sequence) -/
+theorem byte_order_total_preorder :
+    (∀ a b : Bytes, lexLe a b = true ∨ lexLe b a = true) ∧
+    (∀ a b c : Bytes, lexLe a b = true → lexLe b c = true → lexLe a c = true) := ⟨lexLe_total, lexLe_trans⟩
+
+/-- idempotent: sorting a sorted output changes nothing -/
+theorem sortMapKeys_idempotent (kp : Bytes → Bool) (t : JVal) : sortKeysP kp (sortKeysP kp t) = sortKeysP kp t :=
+  sortKeysP_idem kp t
+
+/-- an object whose members already are in key order is left exactly as it is (stable sort) -/
+theorem sortMapKeys_sorted_fixed (l : List Member) (h : Sorted l) : isort l = l := isort_of_sorted l h
+
+/-! ## UseNumber / UseInt64: only numbers under interface{} -/
+
+/-- decoding under a number mode = decoding under the default mode, then retagging the number leaves;
+    `retag` commutes with arrays and objects and does not look at any other leaf -/
+theorem useNumber_useInt64_only_numbers (m : NumMode) :
+    (∀ t, toAny m t = retag m (toAny .float t)) ∧
+    (∀ xs, retag m (.arr xs) = .arr (retagL m xs)) ∧
+    (∀ kvs, retag m (.obj kvs) = .obj (retagM m kvs)) ∧
+    (∀ s, retag m (.str s) = .str s) ∧ (∀ b, retag m (.bool b) = .bool b) ∧ retag m .null = .null :=
+  ⟨fun t => (retag_toAny m t).symm, fun _ => rfl, fun _ => rfl, fun _ => rfl, fun _ => rfl, rfl⟩
+
+/-- UseNumber keeps the literal; UseInt64 yields an int64 exactly for integer literals in range, a float64 otherwise -/
+theorem number_modes_on_literals (lit : Bytes) :
+    anyNum .number lit = .num lit ∧ anyNum .float lit = .f64 lit ∧
+    (∀ v, intLit? lit = some v → fitsInt64 v = true → anyNum .int64 lit = .i64 v) ∧
+    (intLit? lit = none → anyNum .int64 lit = .f64 lit) := by
+  refine ⟨rfl, rfl, ?_, ?_⟩
+  · intro v h1 h2; simp [anyNum, h1, h2]
+  · intro h; simp [anyNum, h]
+
+/-! ## CaseSensitive / field matching -/
+
+/-- a key that selects a field under CaseSensitive selects the same field without it; a key equal to a
+    field name selects that field under both settings (exact matches are never affected) -/
+theorem caseSensitive_subset_caseInsensitive (fs : List Bytes) (k : Bytes) :
+    (∀ i, matchField true fs k = some i → matchField false fs k = some i) ∧
+    (∀ i, findName (fun f => f == k) fs 0 = some i → ∀ cs, matchField cs fs k = some i) :=
+  ⟨matchField_caseSensitive_subset fs k, matchField_exact_unaffected fs k⟩
+
+/-! ## CopyString / NoValidateJSONSkip: no result changes on valid data -/
+
+/-- NoValidateJSONSkip: whenever skipping an array / object WITH validation succeeds (the value is well-formed),
+    skipping it WITHOUT validation stops at the same place - so nothing downstream can differ -/
+theorem noValidateJSONSkip_id_on_valid (s r : Bytes) (h : skipContainer false s = some r) : skipContainer true s = some r := by
+  unfold skipContainer at h ⊢
+  cases s with
+  | nil => simp at h
+  | cons c r0 =>
+    simp only at h ⊢
+    by_cases hc : (c == 91 || c == 123) = true
+    · simp only [hc, if_true, Bool.false_eq_true, if_false, Option.map_eq_some_iff] at h ⊢
+      obtain ⟨⟨v, r'⟩, hp, hr⟩ := h
+      simp only at hr; subst hr
+      have hc' : c = 91 ∨ c = 123 := by simpa using hc
+      exact skipContainer_agrees _ c r0 v r' hc' hp
+    · simp [hc] at h
+
+/-- CopyString is not an input of any result: decoding is the same function with and without it -/
+theorem copyString_changes_no_result (o : DecOpts) (b : Bool) (doc : Bytes) :
+    decodeAny { o with copyString := b } doc = decodeAny o doc := rfl
+
+-- non-vacuity of the spec-level definitions (byte lists: `<a>&` U+2028; `{"b":null,"a":[{"2":null,"1":null}]}` ...)
+example : htmlEscape [60, 97, 62, 38, 226, 128, 168] = [92, 117, 48, 48, 51, 99, 97, 92, 117, 48, 48, 51, 101, 92, 117, 48, 48, 50, 54, 92, 117, 50, 48, 50, 56] := by decide
+example : render (sortKeys (.obj [([98], .null), ([97], .arr [.obj [([50], .null), ([49], .null)]])])) = [123, 34, 97, 34, 58, 91, 123, 34, 49, 34, 58, 110, 117, 108, 108, 44, 34, 50, 34, 58, 110, 117, 108, 108, 125, 93, 44, 34, 98, 34, 58, 110, 117, 108, 108, 125] := by decide
+example : encode { nullNaN := true } [.raw [91], .nonFinite, .raw [93]] = .ok [91, 110, 117, 108, 108, 93] := rfl
+example : encode {} [.raw [91], .nonFinite, .raw [93]] = .error .unsupportedValue := rfl
+example : matchField false [[97, 98], [65, 66]] [97, 66] = some 0 ∧ matchField true [[97, 98], [65, 66]] [97, 66] = none ∧
+    matchField true [[97, 98], [65, 66]] [65, 66] = some 1 := by decide
+example : anyNum .int64 [57, 50, 50, 51, 51, 55, 50, 48, 51, 54, 56, 53, 52, 55, 55, 53, 56, 48, 56] = .f64 [57, 50, 50, 51, 51, 55, 50, 48, 51, 54, 56, 53, 52, 55, 55, 53, 56, 48, 56] ∧ anyNum .int64 [45, 48] = .i64 0 ∧ anyNum .int64 [49, 46, 48] = .f64 [49, 46, 48] := by decide
+-- `[1,"]"]x`: both skippers stop before `x`; `[1 2]x`: only the non-validating one accepts
+example : skipContainer false [91, 49, 44, 34, 93, 34, 93, 120] = some [120] ∧ skipContainer true [91, 49, 44, 34, 93, 34, 93, 120] = some [120] ∧
+    skipContainer false [91, 49, 32, 50, 93, 120] = none ∧ skipContainer true [91, 49, 32, 50, 93, 120] = some [120] := by decide
+example : (froze 0 = (0, 0)) ∧ (froze (flipSwitch 0 10)).1 = 32 ∧ (froze (flipSwitch 0 10)).2 = 32 := by decide
 
 end SonicSpec.Props.C18
